@@ -40,7 +40,9 @@ R = Registry(
         "it was given; the preparer returned by _with_schema_translate renders a symbolic "
         "placeholder from the object's own schema name and never reads map values, placeholder format / "
         "substitution regex / None-alias token agree, a None-key mismatch raises; no function on the path "
-        "mutates the caller's map."
+        "mutates the caller's map; in compiler / preparer / type-compiler / DDL-visitor classes every branch outcome under "
+        "which a schema name is quoted or looked up, and every schema name rendered or handed on, derives from "
+        "schema_for_object(obj) (the translated schema), never from the object's raw .schema attribute (R6)."
     ),
     not_decided="the SQL emitted for arbitrary statements / DDL and its effect per schema on a backend; whether the options "
                 "of the executed element itself (statement.execution_options()) take part in the merge (true for DDL and "
@@ -1285,10 +1287,12 @@ def r6(ctx):
                         return f"{unparse(rr[0])} in {tgt.qualname}()"
                 return None
 
+            seen_tests = set()
             for c in renders:
                 for test, pol in _r6_guards(ctx, f, pm, c):
                     o = tainted_in(test) or helper_raw(test)
-                    if o:
+                    if o and (id(test), pol) not in seen_tests:
+                        seen_tests.add((id(test), pol))
                         problems.append((c.lineno,
                                          f"`{unparse(c)[:60]}` runs only when `{unparse(test)[:70]}` is {pol}: whether the name is "
                                          f"schema-qualified is decided on `{o}`, the object's RAW schema"))
@@ -1374,3 +1378,18 @@ R.mutant("benign-r6-raw-schema-in-error-message", COMP,
 R.mutant("benign-r6-format-table-schema-local-renamed", COMP,
          sub("        effective_schema = self.schema_for_object(table)\n\n        if not self.omit_schema and use_schema and effective_schema:\n            result = self.quote_schema(effective_schema) + \".\" + result\n",
              "        translated = self.schema_for_object(table)\n        wants_schema = not self.omit_schema and use_schema\n\n        if wants_schema and translated:\n            result = self.quote_schema(translated) + \".\" + result\n"), None)
+
+# ---- round-2 seed C16/1 (seeded/C16_3) is the stored mutant `insertmanyvalues-passes-compiled-map` without the gate; benign
+# variants of the same block: the map still comes from the executing context's options, the compiled map is only the gate
+_IMV_BLOCK = ("        if compiled.schema_translate_map:\n            schema_translate_map = context.execution_options.get(\n"
+              "                \"schema_translate_map\", {}\n            )\n        else:\n            schema_translate_map = None\n")
+R.mutant("seed3-insertmanyvalues-map-is-compiled-map", DEF,
+         sub(_IMV_BLOCK, "        schema_translate_map = compiled.schema_translate_map\n"), "C16-R1")
+R.mutant("benign-imv-map-ternary-on-boolean-gate", DEF,
+         sub(_IMV_BLOCK,
+             "        uses_schema_tokens = bool(compiled.schema_translate_map)\n        schema_translate_map = (\n"
+             "            context.execution_options.get(\"schema_translate_map\", {})\n            if uses_schema_tokens\n            else None\n        )\n"), None)
+R.mutant("benign-imv-map-default-none-then-read", DEF,
+         sub(_IMV_BLOCK,
+             "        schema_translate_map = None\n        exec_options = context.execution_options\n        if compiled.schema_translate_map:\n"
+             "            schema_translate_map = exec_options.get(\"schema_translate_map\", {})\n"), None)
